@@ -333,6 +333,17 @@ func c17(e *Env) {
 			raw[4] = byte(c.Choose("opbyte", 256))
 		case 5: // direction bit / version byte
 			raw[0] = byte(c.Choose("vbyte", 256))
+		case 6: // a 32-bit length field inside the body replaced by a hostile value
+			if len(raw) > 13 {
+				vals := []int32{-1, -2, -3, -7, -16, -33, -53, -64, -1 << 31, 1<<31 - 1, 1 << 24, int32(len(raw))}
+				v := vals[c.Choose("lenval", len(vals))]
+				// (biased towards the end of the body, where values and their lengths sit)
+				p := 9 + c.Choose("lenat", len(raw)-12)
+				if c.Choose("lenatend", 2) == 1 {
+					p = len(raw) - 4 - c.Choose("lenfromend", min(len(raw)-12, 24))
+				}
+				raw[p], raw[p+1], raw[p+2], raw[p+3] = byte(v>>24), byte(v>>16), byte(v>>8), byte(v)
+			}
 		}
 		mutated++
 		h.SendRaw(stream, "hostile", tok, raw, msg)
